@@ -5,7 +5,7 @@
 From Coq Require Import ZArith QArith Qabs List Arith Bool Lia Permutation.
 From OPF Require Import Base.Lists Base.TotalOrder Model.Heap Model.Sup Model.Learn Model.Measures
                         Model.LearnFull Spec.Paths.
-From OPF Require Import Proofs.FitBase Proofs.FitSup Proofs.LiftSup Proofs.LiftPrim Proofs.Predict Proofs.PredictRel
+From OPF Require Import Proofs.FitBase Proofs.FitSup Proofs.LiftSup Proofs.LiftPrim Proofs.LiftInst Proofs.Predict Proofs.PredictRel
                         Proofs.Learn Proofs.LearnFull.
 Import ListNotations.
 Local Open Scope nat_scope.
@@ -368,3 +368,172 @@ Section PruneCor.
     fold X' Y' in Hf. split; rewrite Hf at 1; reflexivity.
   Qed.
 End PruneCor.
+
+(* ------------------------------------------------------------------------------------ *)
+(* the exchanges never remove a class from the training set                              *)
+
+Section KeepsProto.
+  (* what an exchange pass may do to Y_train: same length, prototype positions untouched *)
+  Definition yt_kept (proto : list bool) (st st' : lstate nat) : Prop :=
+    length (l_Yt st') = length (l_Yt st) /\
+    forall a, nth a proto true = true -> nth a (l_Yt st') 0 = nth a (l_Yt st) 0.
+
+  Lemma yt_kept_refl proto st : yt_kept proto st st.
+  Proof. split; auto. Qed.
+
+  Lemma yt_kept_trans proto s1 s2 s3 : yt_kept proto s1 s2 -> yt_kept proto s2 s3 -> yt_kept proto s1 s3.
+  Proof. intros (L1 & K1) (L2 & K2). split; [congruence|]. intros a Ha. rewrite K2, K1; auto. Qed.
+
+  Lemma swap_rows_Yt (st : lstate nat) j e :
+    l_Yt (swap_rows st j e) = fst (swap_at (l_Yt st) (l_Yv st) j e).
+  Proof.
+    unfold swap_rows. destruct (swap_at (l_Xt st) (l_Xv st) j e), (swap_at (l_Yt st) (l_Yv st) j e). reflexivity.
+  Qed.
+
+  Lemma swap_rows_kept proto (st : lstate nat) j e : nth j proto true = false -> yt_kept proto st (swap_rows st j e).
+  Proof.
+    intros Hj. unfold yt_kept. rewrite swap_rows_Yt. unfold swap_at.
+    destruct (nth_error (l_Yt st) j), (nth_error (l_Yv st) e); cbn [fst]; try (split; auto; fail).
+    split; [apply upd_length|]. intros a Ha. apply nth_upd_neq. intros ->. congruence.
+  Qed.
+
+  Lemma retry_kept proto e : forall ctr draws (st : lstate nat), yt_kept proto st (snd (retry ctr proto draws st e)).
+  Proof.
+    induction ctr as [|c IH]; intros draws st; cbn [retry]; [apply yt_kept_refl|].
+    destruct draws as [|j ds]; [apply yt_kept_refl|].
+    destruct (nth j proto true) eqn:Ej; [apply IH|]. cbn [snd]. now apply swap_rows_kept.
+  Qed.
+
+  Lemma err_loop_kept proto : forall errs np draws (st : lstate nat),
+    yt_kept proto st (snd (err_loop proto errs np draws st)).
+  Proof.
+    induction errs as [|e es IH]; intros np draws st; cbn [err_loop]; [apply yt_kept_refl|].
+    pose proof (retry_kept proto e np draws st) as Hr.
+    destruct (retry np proto draws st e) as [[sw ds] st1]. cbn [snd] in Hr.
+    eapply yt_kept_trans; [exact Hr | apply IH].
+  Qed.
+End KeepsProto.
+
+Section ClassInv.
+  Context {W : Type}.
+  Variable ltb : W -> W -> bool.
+  Hypothesis O : strict_total_order ltb.
+  Variables zero top : W.
+  Variable w : nat -> nat -> W.
+  Hypothesis Hzt : ltb zero top = true.
+  Hypothesis Hw : forall a b, ltb (w a b) zero = false /\ ltb (w a b) top = true.
+  Context {A : Type}.
+  Variable ao : acc_ops A.
+
+  Local Notation iterate := (iterate ltb zero top w ao).
+  Local Notation loop := (learn_full_loop ltb zero top w ao).
+
+  (* every class present has a prototype (C02), prototypes are never exchanged: the training set
+     keeps at least two classes *)
+  Lemma exchanges_two_classes prev draws (st : lstate nat) :
+    two_classes (l_Yt st) -> two_classes (l_Yt (snd (exchanges (iterate prev st) draws st))).
+  Proof.
+    intros Hcls. set (it := iterate prev st).
+    set (Y := l_Yt st) in *. set (X := l_Xt st). set (n := length Y).
+    set (wX := fun p q => w (nth p X 0) (nth q X 0)).
+    assert (HwX : forall p q, p < n -> q < n -> p <> q -> ltb (wX p q) zero = false /\ ltb (wX p q) top = true)
+      by (intros; apply Hw).
+    assert (Hn : 1 <= n) by (destruct Hcls as (a & _ & Ha & _); unfold n; lia).
+    assert (HwT : forall p q, p < n -> q < n -> p <> q -> ltb (wX p q) top = true)
+      by (intros p q Hp Hq Hpq; apply (HwX p q Hp Hq Hpq)).
+    pose proof (every_class_has_prototype_anyorder ltb O zero top n wX Y Hn eq_refl HwT Hcls) as Hevery.
+    pose proof (prototypes_nonempty_anyorder ltb O zero top n wX Y Hn eq_refl HwT Hcls) as Hproto.
+    destruct (sup_fit_anyorder_full ltb O zero top Y wX Hzt HwX Hproto) as ((_ & Hst & _) & _).
+    assert (Hstatus : n_status (fi_nodes it) = n_status (find_prototypes ltb top n wX (nodes_init zero Y))).
+    { transitivity (n_status (sup_fit ltb zero top Y wX)); [|exact Hst].
+      unfold it, LearnFull.iterate. cbn [fi_nodes].
+      destruct (predict_on_same ltb zero w X (fit_on ltb zero top w X Y) (l_Xv st)) as (_ & _ & _ & _ & Hs & _).
+      exact Hs. }
+    destruct Hcls as (a & b & Ha & Hb & Hab).
+    destruct (Hevery a Ha) as (sa & Hsa & Psa & Lsa). destruct (Hevery b Hb) as (sb & Hsb & Psb & Lsb).
+    destruct (err_loop_kept (n_status (fi_nodes it)) (fi_errs it)
+                (count_non_prototypes (n_status (fi_nodes it))) draws st) as (Hlen & Hkeep).
+    fold (exchanges it draws st) in Hlen, Hkeep. fold Y in Hlen, Hkeep.
+    assert (Ka : nth sa (n_status (fi_nodes it)) true = true).
+    { rewrite Hstatus. rewrite (nth_indep _ true false); [exact Psa|].
+      destruct (find_prototypes_lengths_anyorder ltb O zero top n wX Y Hn eq_refl HwT) as (_ & _ & L & _). rewrite L. exact Hsa. }
+    assert (Kb : nth sb (n_status (fi_nodes it)) true = true).
+    { rewrite Hstatus. rewrite (nth_indep _ true false); [exact Psb|].
+      destruct (find_prototypes_lengths_anyorder ltb O zero top n wX Y Hn eq_refl HwT) as (_ & _ & L & _). rewrite L. exact Hsb. }
+    exists sa, sb. rewrite Hlen. fold n. split; [exact Hsa|]. split; [exact Hsb|].
+    rewrite (Hkeep sa Ka), (Hkeep sb Kb). congruence.
+  Qed.
+
+  Lemma loop_two_classes : forall fuel t n mx prev best snap bnd draws (st : lstate nat),
+    two_classes (l_Yt st) ->
+    forall it, In it (fr_trace (loop fuel t n mx prev best snap bnd draws st)) -> two_classes (fi_Y it).
+  Proof.
+    induction fuel as [|f IH]; intros t n mx prev best snap bnd draws st Hcls it; [intros []|].
+    rewrite loop_S. cbv zeta.
+    destruct (fi_small _ || Nat.eqb (S t) n); cbn [fr_trace].
+    - intros [<-|[]]. exact Hcls.
+    - intros [<-|Hin]; [exact Hcls|].
+      eapply IH; [|exact Hin]. apply exchanges_two_classes. exact Hcls.
+  Qed.
+
+  (* ... so the guard of [learn_full_classifier_is_opf] follows from the initial training set *)
+  Theorem learn_full_snapshot_two_classes n_iterations draws (st : lstate nat) :
+    1 <= n_iterations -> two_classes (l_Yt st) ->
+    two_classes (snd (r_snap (fr_res (learn_full ltb zero top w ao n_iterations draws st)))).
+  Proof.
+    intros Hn Hcls.
+    destruct (learn_full_kept ltb zero top w ao n_iterations draws st Hn) as (it & Hi & Hs & _).
+    rewrite Hs. cbn [snd]. apply nth_error_In in Hi.
+    unfold learn_full in Hi. eapply loop_two_classes; eauto.
+  Qed.
+
+  Theorem learn_full_trace_two_classes n_iterations draws (st : lstate nat) it :
+    two_classes (l_Yt st) -> In it (fr_trace (learn_full ltb zero top w ao n_iterations draws st)) ->
+    two_classes (fi_Y it).
+  Proof. intros Hcls Hin. unfold learn_full in Hin. eapply loop_two_classes; eauto. Qed.
+End ClassInv.
+
+(* ------------------------------------------------------------------------------------ *)
+(* W := Z: the statement in the vocabulary of Props/C01.v (<=, Z.max, pathmax)           *)
+
+Lemma opf_spec_W_Z n (wX : nat -> nat -> Z) zero (nd : @nodes Z) isproto lab :
+  opf_spec_W Z.ltb n wX zero nd isproto lab -> opf_spec_Z n wX zero nd isproto lab.
+Proof.
+  intros (A1 & A2 & A3 & A4 & A5 & A6 & A7).
+  split; [exact A1|]. split; [|split; [exact A3|split; [|split; [exact A5|split]]]].
+  - intros i j Hij Hj. apply Z.ltb_ge. exact (A2 i j Hij Hj).
+  - intros q Hq Hp. destruct (A4 q Hq Hp) as (p & B1 & B2 & B3 & B4 & B5 & B6).
+    exists p. rewrite LiftInst.wmax_Zmax in B4. exact (conj B1 (conj B2 (conj B3 (conj B4 (conj B5 B6))))).
+  - intros q s pi Hq Hs Hp Hpath. specialize (A6 q s pi Hq Hs Hp Hpath).
+    rewrite LiftInst.pathmaxW_Z in A6. now apply Z.ltb_ge.
+  - intros q Hq. destruct (A7 q Hq) as (s & pi & B1 & B2 & B3 & B4).
+    exists s, pi. rewrite LiftInst.pathmaxW_Z in B4. auto.
+Qed.
+
+Theorem learn_full_classifier_is_opf_Z (zero top : Z) (w : nat -> nat -> Z) {A} (ao : acc_ops A)
+        n_iterations draws (st : lstate nat) :
+  (zero < top)%Z -> (forall a b, (zero <= w a b < top)%Z) ->
+  1 <= n_iterations ->
+  two_classes (l_Yt st) ->
+  let r := learn_full Z.ltb zero top w ao n_iterations draws st in
+  let X := fst (r_snap (fr_res r)) in
+  let Y := snd (r_snap (fr_res r)) in
+  let n := length Y in
+  let wX p q := w (nth p X 0) (nth q X 0) in
+  let nd := fr_nodes r in
+  two_classes Y /\
+  same_classifier nd (sup_fit Z.ltb zero top Y wX) /\
+  n_label nd = Y /\
+  opf_spec_Z n wX zero nd (fun q => nth q (n_status nd) false = true) Y.
+Proof.
+  intros Hzt Hw Hn Hcls r X Y n wX nd.
+  assert (Hzt' : Z.ltb zero top = true) by now apply Z.ltb_lt.
+  assert (Hw' : forall a b, Z.ltb (w a b) zero = false /\ Z.ltb (w a b) top = true).
+  { intros a b. destruct (Hw a b). split; [apply Z.ltb_ge | apply Z.ltb_lt]; lia. }
+  assert (HY : two_classes Y).
+  { apply (learn_full_snapshot_two_classes Z.ltb LiftInst.Z_order zero top w Hzt' Hw' ao n_iterations draws st Hn Hcls). }
+  split; [exact HY|].
+  destruct (learn_full_classifier_is_opf Z.ltb LiftInst.Z_order zero top w Hzt' Hw' ao n_iterations draws st Hn HY)
+    as (H1 & H2 & H3).
+  split; [exact H1|]. split; [exact H2|]. apply opf_spec_W_Z. exact H3.
+Qed.
